@@ -47,13 +47,15 @@ ok = all(res[k] for k in ['applies', 'builds', 'suite_passes_with_patch', 'demo_
 print(json.dumps(res, indent=1))
 print("CONFIRMED" if ok else "NOT CONFIRMED")
 if ok:
-    dst = os.path.join('/verif/seeded', name)
+    dst = os.path.join(os.environ.get('SEED_DEST', '/verif/seeded'), name)
     os.makedirs(dst, exist_ok=True)
     shutil.copy(patch, dst)
     shutil.copy(src, dst)
     meta['demo_dest'] = dest
     meta['confirmed_by_me'] = {k: res[k] for k in ['applies', 'builds', 'suite_passes_with_patch', 'demo_fails_with_patch', 'demo_passes_without_patch']}
     meta['what_i_ran'] = "tools/seedverify.py in the scratch worktree: git apply; go build ./...; go test -vet=off -count=1 -p 1 ./... (with patch); demonstration with patch (fails) and after git apply -R (passes)"
+    if os.environ.get('SEED_BASE'):
+        meta['base'] = os.environ['SEED_BASE']  # the refactoring of the corpus the change was made on top of
     if os.environ.get('SKIP_CHECKS'):
         # confirmation only; tools/reseed.py fills checks_fired later
         json.dump(meta, open(os.path.join(dst, 'meta.json'), 'w'), indent=1)
